@@ -32,6 +32,27 @@ CHECKS = {
              "Known finding: int_tensor ** 2.0 keeps the integer dtype. Trusted: Coq kernel, harness/translate.py (table generation), harness. No axioms.",
         technique="Coq finite-lattice theorem by vm_compute over regenerated NumPy tables + exhaustive differential testing against NumPy",
     ),
+    "C04": dict(
+        text="Machine-checked proofs (Coq) of the buffer semantics that 'the same statements on NumPy arrays' means for any family of views described by index maps: a write leaves unmapped positions untouched and stores the "
+             "LAST value at mapped ones; what any other member reads afterwards; members without a common position never see each other's writes; and the one-operation functional meaning used for gradients equals this "
+             "semantics. Tie: 500 (thorough 4000) histories of views of views (basic indexing, reshape, transposes, squeeze/expand_dims, ravel), reads, in-place updates on ANY member (setitem basic/int-array with repeats/"
+             "bool with broadcast values, augmented assignment, out= with and without where=), dropped members, Fortran-ordered owners: after EVERY statement values, pairwise shares_memory, .base, object identity and "
+             "constant flags are compared with the NumPy mirror (the same statements executed on arrays) and with the functional model evaluated in Coq.",
+        design_ref="DESIGN.md 5 (C04)",
+        note="Partial: the refinement 'placeholder/replay machinery of _in_place_op computes the buffer semantics' is established by the correspondence, not proved (no pointer-level model). Index maps of view ops are "
+             "computed by NumPy itself. Known finding: identity-returning view ops (np.squeeze with nothing to squeeze). No axioms.",
+        technique="Coq proofs on buffer/index-map semantics + statement-by-statement differential against NumPy + functional-model correspondence by vm_compute",
+    ),
+    "C05": dict(
+        text="Machine-checked (Coq): an in-place update means ONE operation of the exact registry (keep-mask (.) old contents + scatter of the written values, later writes winning); it is proved to compute the assignment's "
+             "buffer semantics and to have an exact VJP, so C01's adjoint theorem applies to the equivalent purely functional program: reads before a mutation differentiate through old values, later ones through new values, "
+             "overwritten elements pass nothing to old contents, masked-out elements pass their gradient on, a mutated tensor's gradient is w.r.t. its current value. Tie: family histories + terminal built from reads before and after "
+             "mutations + backward(); forward values of all tensors and gradients of all memory owners compared exactly with the model on the functional program (40% of cases with memory guarding off).",
+        design_ref="DESIGN.md 5 (C05)",
+        note="Partial: that MyGrad's placeholder graph IS that functional program is established by exact correspondence, not proved. 'No gradient' and 'all-zero gradient' are identified for fully overwritten tensors. "
+             "Gradients of view members are C06. No axioms.",
+        technique="Coq proof (exact VJP of the update operation + adjoint theorem) + exact-integer correspondence on functionalised in-place programs",
+    ),
     "C07": dict(
         text="Machine-checked proofs (Coq) over the history-level model Model/GraphP.v, for EVERY history of operations / backward / clear_graph / null_grad: after L.backward() L and every tensor "
              "upstream of it (through creators not cleared before) has no creator and no recorded consumers; every tensor whose gradient changed is among them; gradients outside the traversal are "
@@ -168,7 +189,7 @@ def main():
 
 
 # fix: commits in /repo (filled in as they are made)
-SOURCE_COMMITS = ["1caf915", "cac9d7b", "4b729bd", "9cd2617", "683fb85", "e7ddae4"]
+SOURCE_COMMITS = ["1caf915", "cac9d7b", "4b729bd", "9cd2617", "683fb85", "e7ddae4", "48f0694"]
 
 if __name__ == "__main__":
     main()
